@@ -142,6 +142,65 @@ theorem applyValue_ok {v : Option ValueRec} {g g' : Glyph} (h : applyValue v g =
     · cases h
     · injection h with h; subst h; rfl
 
+theorem textOf_set' {seq : List Glyph} {i : Nat} {g' : Glyph}
+    (h : ∀ g, seq[i]? = some g → g'.text = g.text) : textOf (seq.set i g') = textOf seq := by
+  rcases Nat.lt_or_ge i seq.length with hi | hi
+  · have hg : seq[i]? = some seq[i] := List.getElem?_eq_getElem hi
+    exact textOf_set hg (h _ hg)
+  · rw [List.set_eq_of_length_le hi]
+
+theorem stepOK_set2 {st : St} {a p : Nat} {g1 g1' g2 g2' : Glyph} (h1 : st.seq[a]? = some g1)
+    (t1 : g1'.text = g1.text) (h2 : st.seq[p]? = some g2) (t2 : g2'.text = g2.text) (G : Nat) :
+    StepOK G st { st with seq := (st.seq.set a g1').set p g2' } := by
+  refine ⟨?_, Nat.le_succ _, by simp⟩
+  show (textOf ((st.seq.set a g1').set p g2')).Perm _
+  rw [textOf_set' (seq := st.seq.set a g1'), textOf_set h1 t1]
+  · intro g hg
+    by_cases hp : a = p
+    · subst hp
+      rw [h1] at h2; injection h2 with h2; subst h2
+      have hlt : a < st.seq.length := by
+        rcases Nat.lt_or_ge a st.seq.length with h' | h'
+        · exact h'
+        · rw [List.getElem?_eq_none h'] at h1; cases h1
+      rw [List.getElem?_set_self hlt] at hg
+      injection hg with hg; subst hg
+      rw [t2, t1]
+    · rw [List.getElem?_set_ne hp] at hg
+      rw [h2] at hg; injection hg with hg; subst hg; exact t2
+
+theorem applyPair_ok {st : St} {a p : Nat} {g1 g2 : Glyph} {adj : PairAdj} {st' : St} {n : Nat}
+    (h1 : st.seq[a]? = some g1) (h2 : st.seq[p]? = some g2)
+    (h : applyPair st a p g1 g2 adj = .ok (some (st', n))) (G : Nat) : StepOK G st st' := by
+  unfold applyPair at h
+  obtain ⟨g1', hg1, h⟩ := bind_ok h
+  split at h
+  · injection h with h; injection h with h; injection h with h1' h2'; subst h1'
+    exact stepOK_set h1 (applyValue_ok hg1) _
+  · obtain ⟨g2', hg2, h⟩ := bind_ok h
+    injection h with h; injection h with h; injection h with h1' h2'; subst h1'
+    exact stepOK_set2 h1 (applyValue_ok hg1) h2 (applyValue_ok hg2) _
+
+theorem applyMark_ok {add : Bool} {st : St} {a : Nat} {markCov baseCov : Cov} {marks : List MarkRec}
+    {bases : List (List Anchor)} {st' : St} {n : Nat}
+    (h : applyMark add st a markCov baseCov marks bases = .ok (some (st', n))) (G : Nat) : StepOK G st st' := by
+  unfold applyMark at h
+  obtain ⟨g, hg, h⟩ := bind_ok h
+  split at h
+  · cases h
+  · obtain ⟨mr, hmr, h⟩ := bind_ok h
+    split at h
+    · cases h
+    · split at h
+      · cases h
+      · obtain ⟨row, hrow, h⟩ := bind_ok h
+        split at h
+        · cases h
+        · split at h
+          · cases h
+          · injection h with h; injection h with h; injection h with h1 h2; subst h1
+            exact stepOK_set (idx_ok hg) (by rfl) _
+
 theorem applySub_ok (kp : Nat → Bool) (st : St) (a : Nat) (b : Int) (s : Subtable) (st' : St) (n : Nat)
     (h : applySub kp st a b s = .ok (some (st', n))) : StepOK s.growth st st' := by
   cases s with
@@ -315,5 +374,47 @@ theorem applySub_ok (kp : Nat → Bool) (st : St) (a : Nat) (b : Int) (s : Subta
       obtain ⟨g', hg', h⟩ := bind_ok h
       injection h with h; injection h with h; injection h with h1 h2; subst h1
       exact stepOK_set (idx_ok hg) (applyValue_ok hg') _
+  | gpos21 pairs =>
+    simp only [applySub] at h
+    obtain ⟨g1, hg1, h⟩ := bind_ok h
+    obtain ⟨p, hp, h⟩ := bind_ok h
+    split at h
+    · cases h
+    · obtain ⟨g2, hg2, h⟩ := bind_ok h
+      split at h
+      · cases h
+      · cases h
+      · exact applyPair_ok (idx_ok hg1) (idx_ok hg2) h _
+  | gpos22 cov cls1 cls2 adj =>
+    simp only [applySub] at h
+    obtain ⟨g1, hg1, h⟩ := bind_ok h
+    split at h
+    · cases h
+    · obtain ⟨p, hp, h⟩ := bind_ok h
+      split at h
+      · cases h
+      · obtain ⟨g2, hg2, h⟩ := bind_ok h
+        split at h
+        · cases h
+        · split at h
+          · cases h
+          · cases h
+          · exact applyPair_ok (idx_ok hg1) (idx_ok hg2) h _
+  | gpos31 cov recs =>
+    simp only [applySub] at h
+    obtain ⟨g, hg, h⟩ := bind_ok h
+    split at h
+    · cases h
+    · obtain ⟨r, hr, h⟩ := bind_ok h
+      obtain ⟨yo, hyo, h⟩ := bind_ok h
+      obtain ⟨ad, had, h⟩ := bind_ok h
+      injection h with h; injection h with h; injection h with h1 h2; subst h1
+      exact stepOK_set (idx_ok hg) (by rfl) _
+  | gpos41 markCov baseCov marks bases =>
+    simp only [applySub] at h
+    exact applyMark_ok h _
+  | gpos61 markCov baseCov marks bases =>
+    simp only [applySub] at h
+    exact applyMark_ok h _
 
 end SfntV.Shape
